@@ -329,14 +329,36 @@ def extract_formatters(emit):
     if len(pats) != 1:
         raise ExtractError("Formatter.regex: token pattern not found")
     emit(f"def regex_token_re : List Char := {lean_str(pats[0])}")
+    def format_shape(fn, who):
+        """(token pattern, single pass?, what '%%' becomes) of a `format` method.  Single pass: one re.sub with a
+        replacement function that returns a constant for '%%'.  The older shape (mask '%%', finditer, str.replace on
+        the evolving string) is recognised so that a return to it is reported as a changed shape, not as a crash."""
+        subs = [p for m, p in re_call_patterns(fn) if m == "sub"]
+        finds = [p for m, p in re_call_patterns(fn) if m == "finditer"]
+        if len(subs) == 1 and not finds:
+            pct = None
+            for n in ast.walk(fn):
+                if isinstance(n, ast.If) and isinstance(n.test, ast.Compare) and isinstance(n.test.comparators[0], ast.Constant) and n.test.comparators[0].value == "%%":
+                    for b in n.body:
+                        if isinstance(b, ast.Return) and isinstance(b.value, ast.Constant):
+                            pct = b.value.value
+            if pct is None:
+                raise ExtractError(f"{who}.format: the replacement of '%%' was not found")
+            return subs[0], True, pct
+        if len(finds) == 1:
+            return finds[0], False, "%"
+        raise ExtractError(f"{who}.format: token pattern not found")
+
     fn = find_func(tree, "format", "Formatter")
-    pats = [p for m, p in re_call_patterns(fn) if m == "finditer"]
-    if len(pats) != 1:
-        raise ExtractError("Formatter.format: token pattern not found")
-    emit(f"def format_token_re : List Char := {lean_str(pats[0])}")
-    strs = [c for c in str_consts(fn)]
+    tok, single, pct = format_shape(fn, "Formatter")
+    emit(f"def format_token_re : List Char := {lean_str(tok)}")
+    emit(f"def format_single_pass : Bool := {'true' if single else 'false'}")
+    emit(f"def format_percent : List Char := {lean_str(pct)}")
+    # the sentinel regex() masks '%%' with while it expands composite patterns
+    rfn = find_func(tree, "_regex", "Formatter") if any(isinstance(n, ast.FunctionDef) and n.name == "_regex" for n in ast.walk(tree)) else find_func(tree, "regex", "Formatter")
+    strs = [c for c in str_consts(rfn)]
     if "[ESCAPE]" not in strs or "%%" not in strs:
-        raise ExtractError("Formatter.format: escape sentinel not found")
+        raise ExtractError("Formatter.regex: escape sentinel not found")
     emit(f"def format_escape : List Char := {lean_str('[ESCAPE]')}")
     fn = find_func(tree, "from_value", "Formatter")
     pats = [p for m, p in re_call_patterns(fn) if m == "findall"]
@@ -463,6 +485,11 @@ def extract_assets(emit):
         raise ExtractError("asset Formatter.gen_format: patterns not found")
     emit(f"def asset_gen_format_token_re : List Char := {lean_str(token[0])}")
     emit(f"def asset_gen_format_inner_re : List Char := {lean_str(fi[0])}")
+    fn = find_func(tree, "format", "Formatter")
+    subs = [p for m, p in re_call_patterns(fn) if m == "sub"]
+    finds = [p for m, p in re_call_patterns(fn) if m == "finditer"]
+    emit(f"def asset_format_token_re : List Char := {lean_str(subs[0] if len(subs) == 1 and not finds else (finds[0] if finds else ''))}")
+    emit(f"def asset_format_single_pass : Bool := {'true' if len(subs) == 1 and not finds else 'false'}")
 
 
 def extract_probes(emit):
